@@ -190,6 +190,16 @@ theorem C04_cex_rowdata_map_key :
      rowDataNames md.columns = none ∧ mapScan it = .crash ∧ sliceMap it = .crash) := by
   exact ⟨by decide, by rfl, by rfl, by rfl⟩
 
+/-- KF-C04-5: when the driver asked to skip the metadata, executeQuery takes the prepared
+    statement's cached result metadata also when the page DOES carry metadata (here: the server says
+    the column is `b varchar`, the iterator says `a blob`). -/
+theorem C04_cex_skip_metadata_sent_anyway :
+    let cached := viewMeta { paging := none, cols := .global b!"ks" b!"t" [(b!"a", .native 3)] }
+    let sent := viewMeta { paging := none, cols := .global b!"ks" b!"t" [(b!"b", .native 13)] }
+    (iterMeta true (some cached) sent).map (fun md => md.columns.map (·.name)) = some [b!"a"] ∧
+    sent.columns.map (·.name) = [b!"b"] := by
+  exact ⟨by rfl, by rfl⟩
+
 /-! ## 6. non-vacuity -/
 
 /-- a v4 ERROR Unavailable with tracing, warnings and custom payload is well-formed -/
